@@ -536,7 +536,9 @@ func (s *recordingSpan) RecordError(err error, opts ...trace.EventOption) {
 		return
 	}
 
-	opts = append(opts, trace.WithAttributes(
+	// Append to a slice of exactly opts' length: the backing array of opts
+	// belongs to the caller, who may pass the same options to other calls.
+	opts = append(opts[:len(opts):len(opts)], trace.WithAttributes(
 		semconv.ExceptionType(typeStr(err)),
 		semconv.ExceptionMessage(err.Error()),
 	))
